@@ -133,6 +133,7 @@ func (c *compactCleaner) cleanSegment(seg *segment, keyOffsets *sync.Map, hw int
 	if err != nil {
 		return nil, 0, err
 	}
+	crashPoint("compact.created")
 	var (
 		ss      = newSegmentScanner(seg)
 		removed = 0
@@ -167,6 +168,7 @@ func (c *compactCleaner) cleanSegment(seg *segment, keyOffsets *sync.Map, hw int
 		}
 	}
 
+	crashPoint("compact.written")
 	if cleaned.IsEmpty() {
 		// If the new segment is empty, remove it along with the old one.
 		return nil, removed, cleanupEmptySegment(cleaned, seg)
@@ -175,6 +177,7 @@ func (c *compactCleaner) cleanSegment(seg *segment, keyOffsets *sync.Map, hw int
 	if err = cleaned.Replace(seg); err != nil {
 		return nil, removed, err
 	}
+	crashPoint("compact.replaced")
 	return cleaned, removed, nil
 }
 
@@ -233,6 +236,7 @@ func cleanupEmptySegment(new, old *segment) error {
 	if err := new.Delete(); err != nil {
 		return err
 	}
+	crashPoint("compact.empty.new-deleted")
 	// Also delete the old segment since it's been compacted. Set the replaced
 	// flag since this is in the read path.
 	old.Lock()
